@@ -18,6 +18,26 @@ def gen_print(tier, rng):
         r = req_print(d.render())
         EXPECT[r] = d
         out.append(r)
+    # CRLF files in which a summary line ends in a carriage return of its own (`foo\r\r\n`): known finding K2
+    for d in docs(rng, max(20, n // 100)):
+        if not d.records:
+            continue
+        d.eol = "\r\n"
+        r0 = rng.choice(d.records)
+        if r0.summary and rng.random() < 0.5:
+            r0.summary[rng.randrange(len(r0.summary))] += "\r"
+        elif r0.entries:
+            e = rng.choice(r0.entries)
+            if e.first: e.first += "\r"
+            else: e.first = "x\r"
+        else:
+            r0.summary = ["note\r"]
+        b = d.render()
+        if b"\r\r\n" not in b:
+            continue
+        r = req_print(b)
+        EXPECT[r] = d
+        out.append(r)
     return out
 
 def oracle_print(req, out):
@@ -48,10 +68,12 @@ def oracle_print(req, out):
         return "printed output has more than one blank line between records"
     return None
 
-def k2_trailing_cr(req, out):
-    """known finding K2: a summary line that ends in a lone CR does not survive print -> parse"""
+def k2_trailing_cr(req, out, model_out=None):
+    """known finding K2: a summary line that ends in a lone CR does not survive print -> parse. The model reproduces
+       the defect exactly, so the finding is recognised only while the implementation answers as the model does: any
+       other treatment of such a line is a different violation and is reported."""
     b = unhx(req.split(" ")[1])
-    return b"\r\r\n" in b or b.endswith(b"\r") and not b.endswith(b"\r\n")
+    return (b"\r\r\n" in b or b.endswith(b"\r") and not b.endswith(b"\r\n")) and (model_out is None or model_out == out)
 
 def suites():
     return [
